@@ -817,6 +817,12 @@ class NetworkGraph(AbstractBaseIR):
                         w_1d = weight.squeeze(axis=1)
                         args[w_str] = {'vtype': 'constant', 'value': w_1d, 'dtype': 'float', 'shape': w_1d.shape}
                         eqs.append(f"{t_str} = {w_str} * {s_str}")
+                    elif weight.shape[0] == 1:
+                        # a single target unit is a scalar at runtime: the product of the (1, n) matrix with the source
+                        # vector would have shape (1,). The inner product with the 1-D weight vector is a scalar.
+                        w_1d = weight.squeeze(axis=0)
+                        args[w_str] = {'vtype': 'constant', 'value': w_1d, 'dtype': 'float', 'shape': w_1d.shape}
+                        eqs.append(f"{t_str} = matvec({w_str}, {s_str})")
                     else:
                         eqs.append(f"{t_str} = matvec({w_str}, {s_str})")
                 else:
